@@ -289,10 +289,8 @@ def dist_fix_point_bcd(W, grad_ws, lipschitz_ws, datafit, penalty, ws):
     dist = np.zeros(ws.shape[0])
 
     for idx, j in enumerate(ws):
-        if lipschitz_ws[idx] == 0.:
-            continue
-
-        step_j = 1 / lipschitz_ws[idx]
+        # zero curvature (all-zero column): score against the prox at a large step
+        step_j = 1 / lipschitz_ws[idx] if lipschitz_ws[idx] != 0. else 1000.
         dist[idx] = norm(
             W[j] - penalty.prox_1feat(W[j] - step_j * grad_ws[idx], step_j, j)
         )
